@@ -3,6 +3,7 @@ package engine
 import (
 	"io/ioutil"
 	"os"
+	"sync"
 
 	"github.com/bmeg/grip/gdbi"
 	"github.com/bmeg/grip/kvi"
@@ -11,10 +12,14 @@ import (
 
 // NewManager creates a resource manager
 func NewManager(workDir string) gdbi.Manager {
-	return &manager{[]kvi.KVInterface{}, []string{}, workDir}
+	return &manager{kvs: []kvi.KVInterface{}, paths: []string{}, workDir: workDir}
 }
 
 type manager struct {
+	// every step of a traversal that needs temporary storage asks for it on
+	// its own goroutine: the lists of what Cleanup has to close and remove
+	// are shared between them
+	lock    sync.Mutex
 	kvs     []kvi.KVInterface
 	paths   []string
 	workDir string
@@ -24,12 +29,16 @@ func (bm *manager) GetTempKV() kvi.KVInterface {
 	td, _ := ioutil.TempDir(bm.workDir, "kvTmp")
 	kv, _ := badgerdb.NewKVInterface(td, kvi.Options{})
 
+	bm.lock.Lock()
 	bm.kvs = append(bm.kvs, kv)
 	bm.paths = append(bm.paths, td)
+	bm.lock.Unlock()
 	return kv
 }
 
 func (bm *manager) Cleanup() {
+	bm.lock.Lock()
+	defer bm.lock.Unlock()
 	for _, c := range bm.kvs {
 		c.Close()
 	}
